@@ -237,6 +237,39 @@ class RenamePrivate(ast.NodeTransformer):
         return node
 
 
+class RenamePrivateOpaque(RenamePrivate):
+    """as rename-private, but the new names carry no hint of the old ones (`_sortedEnds` -> `_q3f1a`): rules must find
+    fields and helpers by what they do, not by a substring of what they are called"""
+
+    @staticmethod
+    def _new(name: str) -> str:
+        import zlib
+        return "_q%05x" % (zlib.crc32(name.encode()) & 0xFFFFF)
+
+    def visit_Attribute(self, node):
+        ast.NodeTransformer.generic_visit(self, node)
+        if self._priv(node.attr):
+            node.attr = self._new(node.attr)
+        return node
+
+    def visit_FunctionDef(self, node):
+        ast.NodeTransformer.generic_visit(self, node)
+        if self._priv(node.name) and isinstance(getattr(node, "_in_class", None), bool) and node._in_class:
+            node.name = self._new(node.name)
+        return node
+
+    def visit_ClassDef(self, node):
+        for st in node.body:
+            if isinstance(st, (ast.FunctionDef, ast.AsyncFunctionDef)):
+                st._in_class = True
+            tg = st.targets if isinstance(st, ast.Assign) else [st.target] if isinstance(st, ast.AnnAssign) else []
+            for t in tg:
+                if isinstance(t, ast.Name) and self._priv(t.id):
+                    t.id = self._new(t.id)
+        ast.NodeTransformer.generic_visit(self, node)
+        return node
+
+
 class InsertLogging(ast.NodeTransformer):
     """a logging call at the start of every function and before every return (adds `import logging` to the module)"""
 
@@ -272,6 +305,7 @@ TRANSFORMS: Dict[str, Callable[[], ast.NodeTransformer]] = {
     "while-true-break": WhileTrueBreak,
     "comprehension-to-loop": CompToLoop,
     "rename-private": RenamePrivate,
+    "rename-private-opaque": RenamePrivateOpaque,
     "insert-logging": InsertLogging,
 }
 
